@@ -1536,6 +1536,14 @@ func main() {
 	rn.copyCases(r.Fork(), nCopy)
 	rn.towerCases(r.Fork(), nTower)
 	rn.largeCases(r.Fork(), cfg.Thorough())
+	// ill-fitting sections (overhang.go): exhaustive small sweep + random histories; forked LAST so that the streams of
+	// the older generators are unchanged
+	rn.overhangSweep()
+	nIll := 4000
+	if cfg.Thorough() {
+		nIll = 40000
+	}
+	rn.illHistories(r.Fork(), nIll)
 	o.Stat("clone_family_histories", nClone)
 	o.Stat("random_histories", nHist)
 	o.Stat("random_histories_api_level", nBare)
